@@ -60,13 +60,15 @@ def _reg(pid, run, theorems=(), translator=("T1",), rule="", level_text="", leve
                 "assumptions": list(assumptions)}
 
 
-_reg("C01", c01.run, translator=("T1", "T2", "T3"),
+_reg("C01", c01.run, translator=("T1", "T2", "T3"), module="NirVerif.Properties.C01Meta",
      theorems=["NirVerif.C01.edges_roundtrip", "NirVerif.C01.transport", "NirVerif.C01.nothing_added", "NirVerif.C01.type_tag",
                "NirVerif.C01.leaf_end_to_end", "NirVerif.C01.leaf_native_roundtrip", "NirVerif.C01.leaf_exact",
                "NirVerif.C01.leaf_exact_conv2d", "NirVerif.C01.graph_end_to_end", "NirVerif.C01.graph_file_exact",
                "NirVerif.C01.fileExact_spec",
                "NirVerif.C01.child_step", "NirVerif.C01.backVal_array",
-               "NirVerif.C01.backVal_npscalar", "NirVerif.C01.backVal_int"],
+               "NirVerif.C01.backVal_npscalar", "NirVerif.C01.backVal_int",
+               "NirVerif.C01.back_of_encodes", "NirVerif.C01.read_factors", "NirVerif.C01.leaf_end_to_end_meta",
+               "NirVerif.C01.leaf_native_roundtrip_meta"],
      rule="Random graphs over all 17 primitives + nested graphs (depth <= 3), 0-8 nodes, arbitrary names (ASCII, Latin-1, "
           "CJK, emoji, whitespace, dots, reserved words, '/', NUL), arbitrary edge multisets (cyclic, self-loops, parallel, "
           "dangling, dotted), 16 dtypes, every hyper-parameter container form, metadata trees; str / pathlib.Path / "
@@ -91,9 +93,15 @@ _reg("C01", c01.run, translator=("T1", "T2", "T3"),
                 "transported field values of the original; and when the children are constructor-built nodes of the parameter-"
                 "storing classes or Conv2d with file-native values, Inputs and Outputs, the graph read back IS the original "
                 "graph with its node dictionary re-ordered by link name (graph_file_exact: every node exactly itself, the "
-                "edge list exactly itself). PARTIAL: nested sub-graphs and non-empty metadata are covered "
-                "by transport/C16 theorems plus the correspondence run and the oracle, not by this theorem; that the "
-                "constructor applied to transported values yields an *equivalent* node is C05/C19 + oracle.",
+                "edge list exactly itself). For EVERY node or graph, any nesting depth and any metadata (read_factors): "
+                "whenever write succeeds, read of the file is from_dict applied to a dictionary that is Back-related to "
+                "to_dict() of what was written - same keys and nesting at every depth (an empty metadata apart), every "
+                "plain value transported, nothing added (Encodes / back_of_encodes). With NON-EMPTY METADATA "
+                "(leaf_end_to_end_meta): read of a written leaf primitive is the class constructor on the transported field "
+                "values and the metadata dictionary the file returns, which is Back-related to the original at every depth. "
+                "PARTIAL: what from_dict builds for NESTED sub-graphs is not unfolded inside graph_end_to_end (it is "
+                "covered by read_factors + the dictionary-level theorems of C13 and by the correspondence run and the "
+                "oracle); that the constructor applied to transported values yields an *equivalent* node is C05/C19 + oracle.",
      level_note="Lean kernel; hand-written models of to_dict/from_dict/write/read and of the h5py contract (create_dataset conversions, item[()], link names, iteration order), validated against the real library and real files on every run.")
 _reg("C02", c02.run,
      theorems=["NirVerif.C02.array_bits", "NirVerif.C02.scalar_bits", "NirVerif.C02.param_roundtrip", "NirVerif.C02.toDict_field"],
